@@ -4,7 +4,8 @@ from .. import lean, proto, gen, util
 
 REQUIRED = ['Petl.C05.' + n for n in (
     'sort_buffersize_irrelevant sort_any_two_buffersizes sortRows_stable_sort sortRows_perm sort_ascending '
-    'sort_descending stable_sort_unique mergesort_eq_sort_cat mergesort_differing_fields_eq_sort_cat cat_rows mergesort_presorted sort_of_sorted').split()]
+    'sort_descending stable_sort_unique mergesort_eq_sort_cat mergesort_differing_fields_eq_sort_cat cat_rows mergesort_presorted sort_of_sorted '
+    'pickMin_is_heap_minimum heap_minimum_unique').split()]
 
 
 def pyref_sort(etl, tbl, key, reverse):
@@ -44,7 +45,7 @@ def run(ctx):
         ctx.bridge('translator: fingerprints of the petl functions the hand-written models mirror (%d bodies)' % _fpi['names'], True)
     except Exception as e:   # noqa
         ctx.bridge('translator: source fingerprints extracted', False, repr(e))
-    ctx.prove(['PetlProofs.Props.C05', 'PetlProofs.Props.C05Shape', 'PetlProofs.Snapshot.C05'], REQUIRED + ['Petl.C05.merge_machinery_as_modelled'] + ['Petl.Snapshot.C05_sources_as_validated'])
+    ctx.prove(['PetlProofs.Props.C05', 'PetlProofs.Props.C05Heap', 'PetlProofs.Props.C05Shape', 'PetlProofs.Snapshot.C05'], REQUIRED + ['Petl.C05.merge_machinery_as_modelled'] + ['Petl.Snapshot.C05_sources_as_validated'])
     ncases = 3000 if ctx.thorough() else 400
     rng = ctx.rng
     tmpd = tempfile.mkdtemp(prefix='petl_c05_')
